@@ -11,6 +11,13 @@ E5     the compiled staticChunkSize / staticChunkSizeGranular / public staticChu
        and on values up to 2^62 (quotient/remainder form), and the real parallel_for with static
        chunking (pools 1..39 threads, g 1..8, sizes 0..400, int32/int64/uint8/uint16/uint64 incl.
        ranges at the type limits): each record validated by TLC against the spec operators.
+       Boundary-biased inputs (the arithmetic serves 8/16/32/64-bit index types and a uint32_t
+       granularity; a narrow fast path can only be wrong in a window of a few values next to a power
+       of two): items, items / g, chunks and g next to 2^7 2^8 2^15 2^16 2^24 2^31 2^32 2^33 2^48 2^53
+       2^62 2^63 at distances 0, +-1, +-2, +-chunks/2, +-(chunks-1), +-chunks, +-(chunks+1), -2*chunks
+       ("wide" records, 63-bit values as 21-bit limbs), and the real static parallel_for over ranges of
+       such sizes up to the whole domain of the 16/32-bit types and 2^63 - chunks for the 64-bit ones
+       (body records boundaries only; "pfw" records) - same TLC run (ChunkingTrace.tla).
 """
 import os
 import re
@@ -85,7 +92,9 @@ def run_tlapm(ctx):
 def run(ctx):
     thorough = ctx.tier == 'thorough'
     exe_pf = pc.build_parfor(ctx)
-    exe_ch = ctx.build('drv_chunking', ['harness/drv/drv_chunking.cpp'], flags=pc.third_party_flag())
+    # drv_chunking also calls the real static parallel_for over huge ranges: same dispenso objects as drv_parfor
+    exe_ch = ctx.build('drv_chunking', ['harness/drv/drv_chunking.cpp'], dispenso=vlib.DISPENSO_SRCS,
+                       flags=pc.third_party_flag() + ['-g0'])
     bg = pc.Background(ctx, exe_pf, WHAT)
     bg.start('static17', ['--n', 2500 if thorough else 400])
 
